@@ -12,6 +12,8 @@ from .common import gen_cuts, gen_knobs, gen_transport, pick
 from .hist import Index
 
 BOUNDARY = [0, 1, 2, 126, 127, 128, 129, 16382, 16383, 16384, 16385, 65514, 65515]
+# ... and where a length byte of the encrypted framing rolls over: payload + 4 (inner header) [+ 16 (tag)] = 255, 256, 257, ...
+BOUNDARY += [235, 236, 237, 251, 252, 253, 254, 255, 256, 257, 491, 492, 493, 65259, 65260, 65261, 65279, 65280, 65281]
 # client-originated messages with one big bytes/string field: (name, field, is_bytes)
 BIG = [("VoiceAssistantAudio", "data", True), ("BluetoothGATTWriteRequest", "data", True), ("HomeAssistantStateResponse", "state", False), ("TextCommandRequest", "state", False)]
 SMALL = [["SwitchCommandRequest", {"key": 1, "state": True}], ["PingRequest", {}], ["CameraImageRequest", {"single": True}], ["SubscribeStatesRequest", {}], ["ButtonCommandRequest", {"key": 7}], ["NumberCommandRequest", {"key": 3, "state": 2.5}], ["SubscribeLogsRequest", {"level": 3}], ["BluetoothDeviceRequest", {"address": 2**47 + 5, "request_type": 1}]]
@@ -99,6 +101,12 @@ def wire_oracle(ix: Index, scn: dict) -> list[Violation]:
             for op in ix.ops:
                 if op.do in ("send", "fh.write") and op.s1 is not None:
                     inside = [i for i, (seq, data, turn, tt) in enumerate(writes) if op.s0 < seq < op.s1]
+                    n_given = len(op.args.get("msgs", op.args.get("packets", [])))
+                    if op.ok and n_given == 0:
+                        # an empty batch: nothing to say - no write at all, or one that carries no byte
+                        if any(writes[i][1] for i in inside):
+                            out.append(Violation("undecodable-write", "empty-batch", f"{op.do} of an empty batch wrote {b''.join(bytes(writes[i][1]) for i in inside).hex()}"))
+                        continue
                     if op.ok and len(inside) != 1:
                         out.append(Violation("writes-per-batch", str(len(inside)), f"{op.do} batch of {len(op.args.get('msgs', op.args.get('packets', [])))} message(s) produced {len(inside)} transport.write call(s)"))
                     if op.ok and inside:
@@ -267,9 +275,16 @@ def gen_helper_writes(rng: random.Random, noise: bool | None = None) -> dict:
         dev = {"transport": "noise", "psk": psk, "eph_seed": "%x" % rng.getrandbits(32)}
         att = {"do": "fh.attach", "kind": "noise", "psk": psk}
     steps.append(att)
+    if rng.random() < 0.08:
+        # a run of consecutive payload sizes (every off-by-one of a size table or guard in that range shows)
+        lo = pick(rng, [0, 100, 200, 300, 16384 - 150, 65515 - 299])
+        ty = rng.choice(ids)
+        for k in range(lo, lo + 300, 20):
+            steps.append({"do": "fh.write", "packets": [{"type": ty, "gen": [n, n]} for n in range(k, k + 20)]})
+        return {"family": "framing", "knobs": gen_knobs(rng), "device": dev, "net": {"cuts": {"mode": "coalesce"}, "c2d_latency": 0.001}, "actors": [{"id": "a0", "at": {"t": 0.0}, "steps": steps}], "events": [], "end": 30.0}
     for _ in range(rng.randint(1, 8)):
         pk = []
-        for _ in range(pick(rng, [1, 1, 2, 5, 20])):
+        for _ in range(pick(rng, [1, 1, 2, 5, 20, 1, 1, 2, 5, 0])):  # (now and then an empty batch: an application's filtered list)
             ln = pick(rng, BOUNDARY)
             pk.append({"type": rng.choice(ids), "gen": [ln, rng.getrandbits(20)]})
         steps.append({"do": "fh.write", "packets": pk})
